@@ -64,7 +64,7 @@ func checkC07(p *Program, r *Report) {
 	}
 	ea := buildErrAnalysis(m)
 	va := buildEvalAnalysis(m)
-	nEvents := 0
+	nEvents, nHandoffs := 0, 0
 	var evList []string
 	for _, fn := range m.funcsOnRecord() {
 		fname := funcName(fn)
@@ -80,6 +80,42 @@ func checkC07(p *Program, r *Report) {
 					}
 				}
 			}
+		}
+		hcnt := map[string]int{}
+		for _, h := range va.handoffs[fn] {
+			st := va.before[fn][h.call]
+			if st == nil {
+				continue
+			}
+			key := fmt.Sprintf("%s|hands its node to %s", fname, h.callee.Name())
+			hcnt[key]++
+			inst := key
+			if hcnt[key] > 1 {
+				inst = fmt.Sprintf("%s #%d", key, hcnt[key])
+			}
+			nHandoffs++
+			dup := ""
+			var ks []string
+			for k := range va.evalSet[h.callee] {
+				ks = append(ks, k)
+			}
+			sort.Strings(ks)
+			for _, k := range ks {
+				role, o := k[:strings.Index(k, ":")], k[strings.Index(k, ":")+1:]
+				for _, r2 := range []string{"expr", "let", "stmt", "op"} {
+					seen := st.done[r2+":"+o] || va.inherited[fn][r2+":"+o] != ""
+					if !seen || va.must[h.callee][r2+":"+o] {
+						continue // when every hand-off brings it, the evaluation inside the receiving function is reported
+					}
+					if r2 == role {
+						dup = o
+					} else if (role == "expr" || role == "let") && (r2 == "expr" || r2 == "let") && !strings.HasSuffix(o, ".(IdentExpr)") {
+						dup = o + " (once as a value, once as an assignment target)"
+					}
+				}
+			}
+			r.Check(dup == "", "C07.R1", inst, p.Pos(h.call.Pos()), "the receiving function evaluates no operand that was evaluated before the hand-off",
+				"operand "+dup+" was already evaluated when the node is handed to "+h.callee.Name()+", which evaluates it again")
 		}
 		for _, e := range va.events[fn] {
 			nEvents++
@@ -110,6 +146,32 @@ func checkC07(p *Program, r *Report) {
 			for _, o := range e.operands {
 				if e.done[e.role+":"+o] {
 					dup = o
+				}
+				// assigning to an operand that was also evaluated (or the other way round) runs the operand's own operands twice,
+				// unless it is a plain identifier, which has none
+				if !strings.HasSuffix(o, ".(IdentExpr)") {
+					for _, role := range []string{"expr", "let"} {
+						if role != e.role && (e.role == "expr" || e.role == "let") && e.done[role+":"+o] {
+							dup = o + " (once as a value, once as an assignment target)"
+						}
+					}
+				}
+			}
+			// ... nor by the function that handed the node over
+			for _, o := range e.operands {
+				if !nodeOperand(o) {
+					continue
+				}
+				for _, role := range []string{"expr", "let", "stmt", "op"} {
+					w := va.inherited[fn][role+":"+o]
+					if w == "" || !va.must[fn][role+":"+o] {
+						continue // reported at the hand-off that brings it, when not every hand-off does
+					}
+					if role == e.role {
+						dup = o + " (already evaluated by " + w + " before it handed the node over)"
+					} else if (role == "expr" || role == "let") && (e.role == "expr" || e.role == "let") && !strings.HasSuffix(o, ".(IdentExpr)") {
+						dup = o + " (once as a value in " + w + ", once as an assignment target here)"
+					}
 				}
 			}
 			r.Check(dup == "", "C07.R1", inst, site, "operand not evaluated before on any path to this event", "operand "+dup+" can be evaluated a second time on a path reaching this call")
@@ -217,6 +279,7 @@ func checkC07(p *Program, r *Report) {
 		}
 	}
 	r.Floor("C07.R1", nEvents, 95)
+	r.Note("node_handoffs", nHandoffs)
 	r.Note("evaluation_events", nEvents)
 	r.Note("events", evList)
 
